@@ -11,7 +11,7 @@ import common
 import tlc
 
 SERVES = ["C07", "C12", "C13"]
-HELPS = ["C03", "C11"]
+HELPS = ["C03", "C11", "C06"]
 
 
 def _tlc_batches(module, cfg, key, items, wrap, per=4000, par=8, heap="3g"):
@@ -213,14 +213,14 @@ def _sel_viol(res, prop):
 def report(prop, res):
     viols, mach = [], []
     sel, cp = res["sel"], res["cp"]
-    if prop == "C07":
+    if prop in ("C07", "C06"):
         for m in cp["mismatches"]:
-            mine = [c for c in m["c"] if c.startswith("C07")]
+            mine = [c for c in m["c"] if c.startswith(prop)]
             if mine:
                 it = m["item"]
                 viols.append({"sig": {"clause": mine[0]},
                               "what": f'{mine} n={it["n"]} deps={it["deps"]} prio={it["prio"]} table={it["cp_build"]} order={it["order"]} hashseed={it["hs"]}',
-                              "replay": {"engine": "E3", "property": "C07", "kind": "cp", "clauses": mine,
+                              "replay": {"engine": "E3", "property": prop, "kind": "cp", "clauses": mine,
                                          "case": {k: it[k] for k in ("n", "deps", "prio", "prio2")}, "hs": it["hs"], "observed": it}})
     else:
         viols = _sel_viol(res, prop)
@@ -237,7 +237,7 @@ def report(prop, res):
         mach.append(f'TLC evaluated {sel["counts"].get("rows")} of {sel["rows"]} selection rows')
     if cp["counts"].get("rows", 0) != cp["rows"]:
         mach.append(f'TLC evaluated {cp["counts"].get("rows")} of {cp["rows"]} compound-priority rows')
-    if prop == "C07":
+    if prop in ("C07", "C06"):
         nontriv = cp["counts"].get("diamonds", 0)
         rule = ("rows = (DAG shape, priority vector, PYTHONHASHSEED); observed: table after build, after reconfiguration "
                 "(dict / JSON / YAML), tables of executor sub-graphs, mc=1 execution order before and after reconfiguration. "
@@ -274,6 +274,9 @@ def replay(payload, log=common.say):
         inp = os.path.join(common.CACHE, f"cp-replay-{os.getpid()}.json")
         outp = inp + ".out"
         case = dict(payload["case"], sels=[])
+        origin = payload.get("observed", {}).get("origin")
+        if origin:          # the row came from a DAG obtained through compose(): compose it again
+            case = dict(origin["case"], sels=[], conf=[], replay_composed_idx=origin["idx"])
         with open(inp, "w") as f:
             json.dump([case], f)
         subprocess.run([common.PY, os.path.join(common.VERIF, "harness", "e3_cp_worker.py"), inp, outp],
